@@ -45,6 +45,19 @@ static char scriptAt(const std::string& id, const std::string& inst, int n) {
   return str[n % str.size()];
 }
 
+// a plugin that takes time: the (virtual) clock advances when its run() is
+// entered, so that time passes *inside* a tick (plan["costs"][id] = ns)
+static void simCost(const std::string& id) {
+  const Json::Value& c = R.plan["costs"];
+  if (c.isObject() && c.isMember(id)) {
+    int64_t ns = c[id].asInt64();
+    if (ns > 0) {
+      R.now_ns += ns;
+      fired("slow-plugin");
+    }
+  }
+}
+
 static Oomd::Engine::PluginRet toRet(char c) {
   switch (c) {
     case 'S':
@@ -116,6 +129,7 @@ class SimDetector : public Oomd::Engine::BasePlugin {
     record(std::move(e));
   }
   Oomd::Engine::PluginRet run(Oomd::OomdContext& ctx) override {
+    simCost(id_);
     std::string inst = rcg(ctx);
     char c = scriptAt(id_, inst, runs_);
     Ev e;
@@ -187,6 +201,7 @@ class SimAction : public Oomd::Engine::BasePlugin {
     record(std::move(e));
   }
   Oomd::Engine::PluginRet run(Oomd::OomdContext& ctx) override {
+    simCost(id_);
     std::string inst = rcg(ctx);
     char c = scriptAt(id_, inst, runs_);
     Json::Value acj = actionCtxJson(ctx);
